@@ -18,7 +18,6 @@ pub fn run(args: &Args) {
     for _ in 0..extra { shapes.push((rng.below(N), rng.below(N + 1))); }
     let mut tr = TraceOut::create(args.out.as_deref().unwrap_or(""));
     let mut res = Results::create(args.res.as_deref().unwrap_or(""));
-    watchdog(600);
     let rt = runtime();
     rt.block_on(async {
         let sim = Sim::start().await;
